@@ -106,8 +106,11 @@ def arg_class(st):
     if "val" in arg:
         n = len(arg["val"])
         cl.append("value_len>=250" if n >= 250 else "value_len=0" if n == 0 else "value_len<250")
+    if arg.get("end"):
+        cl.append("end")
     if "path" in arg and "sep" in arg:
-        els = "".join(chr(x) for x in arg["path"]).split(chr(arg["sep"]))
+        body = arg["path"][:arg["path"].index(arg["end"])] if arg.get("end") and arg["end"] in arg["path"] else arg["path"]
+        els = "".join(chr(x) for x in body).split(chr(arg["sep"]))
         m = max(len(e) for e in els)
         cl.append("elem_len>255" if m > 255 else "elem_len=0" if min(len(e) for e in els) == 0 else "elem")
     if "asg" in arg:
@@ -242,7 +245,12 @@ def gen_store_history(rng, mode, steps, longvals):
         p = bjoin(rng.choice(pool), sep)
         r = rng.random()
         if r < 0.55:
-            hist.append({"a": "assign", "arg": {"via": via, "path": p, "sep": sep, "val": mkval(rng, rng.choice(lens))}})
+            end = 0
+            if mode != "cxx" and 61 not in p and rng.random() < 0.25:       # "path=trailing text", end character '='
+                end = 61
+                p = p + [61] + mkval(rng, rng.choice([0, 1, 3]))
+            hist.append({"a": "assign", "arg": {"via": via, "path": p, "sep": sep, "end": end,
+                                                "val": mkval(rng, rng.choice(lens))}})
         elif r < 0.78:
             hist.append({"a": "remove", "arg": {"via": via, "path": p, "sep": sep}})
         elif r < 0.9:
@@ -290,7 +298,7 @@ def long_values_work(exes, label):
     view = label == "view"
     beh = [{"a": "init", "arg": {"base": bjoin(BASE, 46) if view else [], "sep": 46, "uni": [bjoin(BASE + [[97]], 46) if view else [97]],
                                  "rel": [[0], [97]] if view else []}},
-           {"a": "assign", "arg": {"via": "view" if view else "top", "path": [97], "sep": 46, "val": [120] * 300}}]
+           {"a": "assign", "arg": {"via": "view" if view else "top", "path": [97], "sep": 46, "end": 0, "val": [120] * 300}}]
     recs, _ = vlib.run_driver(exes["cxx" if label == "cxx" else "c"], script([beh], quiet_prefix=False))
     return len(recs) == 2 and (recs[1].get("obs") or {}).get("all") == [[120] * 300], beh
 
@@ -329,7 +337,8 @@ def binding_b(ck, exes, n, steps, nt):
     for i in range(max(3, n // 3)):
         groups["global"][2].append(gen_path_history(rng, steps))
     # the same histories once more on the builds without sanitizer
-    groups["cxx-plain"] = ("cxxp", "Trace_Config_items.cfg", groups["cxx"][2])
+    groups["cxx-plain"] = ("cxxp", "Trace_Config_items.cfg",
+                           groups["cxx"][2] + [gen_store_history(rng, "cxx", 150, True) for _ in range(max(12, n // 6))])
     groups["global-plain"] = ("cp", "Trace_Config.cfg", groups["global"][2])
     total = okn = 0
     info = {}
